@@ -43,6 +43,70 @@ def _apply(repo, edits):
     return overlay
 
 
+def apply_unified_diff(repo, diff_text):
+    """Pure-python application of a unified diff to files under repo -> overlay {rel: text}, or None if a hunk does not fit."""
+    import re
+
+    overlay = {}
+    cur = None
+    hunks = []
+    files = []
+    for line in diff_text.splitlines():
+        if line.startswith("+++ "):
+            path = line[4:].strip()
+            cur = path[2:] if path.startswith("b/") else path
+            files.append((cur, []))
+        elif line.startswith("@@") and files:
+            m = re.match(r"@@ -(\d+)(?:,(\d+))? \+(\d+)(?:,(\d+))? @@", line)
+            files[-1][1].append(dict(start=int(m.group(1)), lines=[]))
+        elif files and files[-1][1] and (line[:1] in (" ", "+", "-") or line == "") and not line.startswith("--- "):
+            files[-1][1][-1]["lines"].append(line if line else " ")
+    for rel, hs in files:
+        fp = os.path.join(repo, rel)
+        if not os.path.isfile(fp):
+            return None
+        with open(fp, encoding="utf8") as fh:
+            src = fh.read().split("\n")
+        shift = 0
+        for h in hs:
+            old = [l[1:] for l in h["lines"] if l[:1] in (" ", "-")]
+            new = [l[1:] for l in h["lines"] if l[:1] in (" ", "+")]
+            guess = h["start"] - 1 + shift
+            pos = None
+            for d in sorted(range(-400, 401), key=abs):
+                i = guess + d
+                if 0 <= i <= len(src) - len(old) and src[i:i + len(old)] == old:
+                    pos = i
+                    break
+            if pos is None:
+                return None
+            src[pos:pos + len(old)] = new
+            shift += len(new) - len(old) + (pos - guess)
+        overlay[rel] = "\n".join(src)
+    return overlay
+
+
+def corpus_variants(prop):
+    """The independently seeded changes kept under /verif/seeded that this property's check is on record as catching."""
+    import json
+
+    base = os.path.join(os.path.dirname(os.path.dirname(os.path.abspath(__file__))), "seeded")
+    out = []
+    if not os.path.isdir(base):
+        return out
+    for sid in sorted(os.listdir(base)):
+        mp = os.path.join(base, sid, "meta.json")
+        pp = os.path.join(base, sid, "patch.diff")
+        if not (os.path.isfile(mp) and os.path.isfile(pp)):
+            continue
+        with open(mp) as fh:
+            meta = json.load(fh)
+        caught = meta.get("caught_by", {})
+        if isinstance(caught.get(f"{prop}/quick"), dict) and caught[f"{prop}/quick"].get("exit") == 1:
+            out.append(dict(id=f"corpus:{sid}", kind="seeded", expect=prop + ".", patch=pp))
+    return out
+
+
 def _run_variant(args):
     prop, repo, overlay = args
     from .check import run_rules
@@ -69,12 +133,17 @@ def run_battery(prop, repo, base_failures, seed=0, jobs=16):
     try:
         mod = importlib.import_module(f"sa.variants.{prop.lower()}")
     except ModuleNotFoundError:
-        return dict(summary="no variants registered", results=[], broken=[])
-    variants = list(mod.VARIANTS)
+        class mod:  # noqa: N801
+            VARIANTS = []
+    variants = list(mod.VARIANTS) + corpus_variants(prop)
     base = set(base_failures)
     work, results = [], []
     for v in variants:
-        ov = _apply(repo, v["edits"])
+        if "patch" in v:
+            with open(v["patch"], encoding="utf8") as fh:
+                ov = apply_unified_diff(repo, fh.read())
+        else:
+            ov = _apply(repo, v["edits"])
         if ov is None:
             results.append(dict(id=v["id"], kind=v["kind"], verdict="skipped", detail="anchor text not present in the current tree"))
             continue
